@@ -1,4 +1,5 @@
 import HypatiaProofs.Lemmas.RankTree
+import HypatiaProofs.Lemmas.RankCosine
 import HypatiaProofs.Lemmas.RankSort
 
 /-!
@@ -8,18 +9,11 @@ Property statements only.  `Score.apply` models `TextIndex.apply` after parsing 
 tree with C14's `exec`, divide by `query_weight(tree.terms())`), `TextSort.sort` models
 `TextIndex.sort`.  Real-number scores; the lexicon (`lex`) and the history are arbitrary.
 
-**Proved:** normalisation for every tree and both back ends; the `(0, 1]` bound for every
-glob-free tree on the Okapi back end; the sort contract.  **Not proved** (full statement kept
-here, checked by the correspondence run only):
-
-    theorem c20_cosine_bound (ops) (lex) (t) (hg : globFree t) (hd : the word ids of t's terms are
-        pairwise distinct) (r) (h : apply .cosine (run ops) lex t = .ok (some r)) :
-        ∀ d v, AMap.get r d = some v → 0 < v ∧ v ≤ 1
-
-What is missing is the Cauchy–Schwarz step (`Σ w(d,t)/W(d) · idf(t) ≤ √Σ(w/W)² · √Σ idf²` with
-`Σ_{t matched, distinct} (w(d,t)/W(d))² ≤ 1`) and its transport through AND/OR nodes; the per-term
-facts and the tree induction scheme are those used for Okapi below.  `c20_cosine_repeated_term`
-proves that *distinct* cannot be dropped.
+Proved: normalisation for every tree and both back ends; every score of a glob-free tree is a
+sum of docstring summands over a sub-list of the tree's word ids (`c20_tree_score`); the `(0, 1]`
+bound for every glob-free tree on the Okapi back end, and on the cosine back end when the word
+ids of the tree's (non-NOT) terms are pairwise distinct (Cauchy–Schwarz); a proved counterexample
+showing *distinct* cannot be dropped; the sort contract.
 -/
 set_option linter.unusedSectionVars false
 set_option linter.unusedSimpArgs false
@@ -94,6 +88,62 @@ theorem c20_okapi_bound (ops : List Op) (lex : Lex) (t : Tree) (hg : globFree t 
         simp only [Option.map_some, Option.some.injEq] at hv
         obtain ⟨hx1, hx2⟩ := hb d x hraw
         have hq : (0 : ℝ) < queryWeight .okapi (run ops) ((terms t).flatMap lex.termWids) := lt_of_lt_of_le hx1 hx2
+        rw [if_neg (ne_of_gt hq)] at hv
+        subst hv
+        exact ⟨div_pos hx1 hq, (div_le_one hq).mpr hx2⟩
+
+/-- **What a tree's score is** (both back ends): for a glob-free tree every returned document's
+raw score is `Σ_{x ∈ S} summand(x)` of the C08 formula, for a non-empty sub-list `S` of the word ids
+of the tree's terms (`tree.terms()` through the lexicon, NOT subtrees excluded, repeats kept), all
+of which occur in the document. -/
+theorem c20_tree_score (k : Kind) (ops : List Op) (lex : Lex) (t : Tree) (hg : globFree t = true)
+    (r : Res ℝ) (h : exec (textIndex k (run ops) lex) t = .ok (some r)) :
+    ∃ raw, r = .ok raw ∧ ∀ d v, AMap.get raw d = some v →
+      ∃ ws S, AMap.get (ScoreSpec.tableOf ops) d = some ws ∧ S ≠ [] ∧
+        S.Sublist ((terms t).flatMap lex.termWids) ∧ (∀ x ∈ S, x ∈ ws) ∧
+        v = (S.map (specTerm k (ScoreSpec.tableOf ops) ws)).sum := by
+  obtain ⟨m, hm, hr⟩ := rt_all k (run ops) lex (inv_run ops) t hg r h
+  refine ⟨m, hm, fun d v hv => ?_⟩
+  have := hr d v hv
+  rw [table_run] at this
+  exact this
+
+/-- **Cosine, raw scores**: glob-free tree whose terms' word ids are pairwise distinct:
+`0 < score ≤ query_weight` (Cauchy–Schwarz against the document's unit weight vector). -/
+theorem c20_cosine_raw_bound (ops : List Op) (lex : Lex) (t : Tree) (hg : globFree t = true)
+    (hd : ((terms t).flatMap lex.termWids).Nodup)
+    (r : Res ℝ) (h : exec (textIndex .cosine (run ops) lex) t = .ok (some r)) :
+    ∃ raw, r = .ok raw ∧ ∀ d v, AMap.get raw d = some v →
+      0 < v ∧ v ≤ queryWeight .cosine (run ops) ((terms t).flatMap lex.termWids) := by
+  obtain ⟨raw, hraw, hr⟩ := c20_tree_score .cosine ops lex t hg r h
+  refine ⟨raw, hraw, fun d v hv => ?_⟩
+  obtain ⟨ws, S, h1, h2, h3, h4, h5⟩ := hr d v hv
+  rw [queryWeight_spec, table_run, h5]
+  exact cosine_sum_bounds _ d ws h1 S _ h2 h3 hd h4
+
+/-- **Cosine, normalised scores lie in (0, 1]** for glob-free queries with distinct terms. -/
+theorem c20_cosine_bound (ops : List Op) (lex : Lex) (t : Tree) (hg : globFree t = true)
+    (hd : ((terms t).flatMap lex.termWids).Nodup)
+    (r : WMap ℝ) (h : Score.apply .cosine (run ops) lex t = .ok (some r)) :
+    ∀ d v, AMap.get r d = some v → 0 < v ∧ v ≤ 1 := by
+  intro d v hv
+  cases he : exec (textIndex .cosine (run ops) lex : Index (Res ℝ)) t with
+  | error e => rw [(c20_apply_passthrough .cosine (run ops) lex t).2 e he] at h; cases h
+  | ok o =>
+    cases o with
+    | none => rw [(c20_apply_passthrough .cosine (run ops) lex t).1 he] at h; cases h
+    | some res =>
+      obtain ⟨raw, rfl, hb⟩ := c20_cosine_raw_bound ops lex t hg hd res he
+      obtain ⟨r', hr', hg'⟩ := c20_apply_normalised .cosine (run ops) lex t raw he
+      rw [hr'] at h; injection h with h; injection h with h; subst h
+      rw [hg' d] at hv
+      cases hraw : AMap.get raw d with
+      | none => rw [hraw] at hv; cases hv
+      | some x =>
+        rw [hraw] at hv
+        simp only [Option.map_some, Option.some.injEq] at hv
+        obtain ⟨hx1, hx2⟩ := hb d x hraw
+        have hq : (0 : ℝ) < queryWeight .cosine (run ops) ((terms t).flatMap lex.termWids) := lt_of_lt_of_le hx1 hx2
         rw [if_neg (ne_of_gt hq)] at hv
         subst hv
         exact ⟨div_pos hx1 hq, (div_le_one hq).mpr hx2⟩
